@@ -28,7 +28,7 @@ func appendFrame(b []byte, payload []byte, end bool) []byte {
 }
 
 func mustMarshal(m proto.Message) []byte {
-	b, err := proto.Marshal(m)
+	b, err := proto.MarshalOptions{Deterministic: true}.Marshal(m)
 	if err != nil {
 		panic(err)
 	}
